@@ -39,6 +39,7 @@ pub fn record_gen(st: &mut Stats, gs: &GenStats) {
     st.add("resize_while_wrap_pending", gs.resize_pending);
     st.add("resize_mid_sequence", gs.resize_mid_seq);
     st.add("resize_while_alternate", gs.resize_alt);
+    st.add("giant_resizes", gs.giant_resizes);
     st.add("snapshot_events", gs.snapshots);
     st.add("snapshot_mid_sequence", gs.snapshot_mid_seq);
     st.add("damaged_tokens", gs.damage);
@@ -90,6 +91,7 @@ pub fn chaos_trace(r: &mut Rng, tier: Tier, id: &str, st: &mut Stats) -> Trace {
         p.fam[F_RECORDED] = p.fam[F_RECORDED].max(10);
         p.max_tokens = p.max_tokens.min(12);
     }
+    p.giant_resizes = matches!(id, "C01" | "C02");
     let o = SessionOpts { profile: p, max_cols: mc, max_rows: mr };
     let policy = *r.pick(&CUT_POLICIES);
     let dp = *r.pick(&[DrainPolicy::AlwaysAll, DrainPolicy::Mixed, DrainPolicy::Mixed, DrainPolicy::AlwaysDrop]);
@@ -100,4 +102,57 @@ pub fn chaos_trace(r: &mut Rng, tier: Tier, id: &str, st: &mut Stats) -> Trace {
     let mut t = Trace::new(id, cfg);
     t.events = evs;
     t
+}
+
+/// Volume faults: a single call (or a few pieces) carrying far more work than any session of
+/// ordinary tokens - beyond 2^17 and 2^20 rows scrolled off, beyond 2^20 cells repeated, beyond
+/// 2^21 characters - so that per-call budgets, batch sizes and counters of those magnitudes are crossed.
+#[derive(Clone, Copy, PartialEq, Eq, Debug)]
+pub enum Volume {
+    Lines17,
+    Lines20,
+    Rep20,
+    Chars21,
+}
+
+pub fn volume_string(r: &mut Rng, kind: Volume) -> String {
+    let unit = *r.pick(&["\n", "a\n", "ab\r\n", "\n"]);
+    match kind {
+        Volume::Lines17 => unit.repeat(131_073 + r.usize_below(30_000)),
+        Volume::Lines20 => unit.repeat(1_048_577 + r.usize_below(80_000)),
+        Volume::Rep20 => format!("x{}", "\x1b[65535b".repeat(17 + r.usize_below(4))),
+        Volume::Chars21 => {
+            let unit = *r.pick(&["ab\n", "abc\r\n", "a\n"]);
+            let target = 2 * 1_048_576 + 50_000 + r.usize_below(1_100_000);
+            unit.repeat(target / unit.len() + 1)
+        }
+    }
+}
+
+/// Draws a volume kind (or none) for one run: `limited` = the rows scrolled off are not retained
+/// (a scrollback limit, or the string is sent to the alternate screen), which bounds the memory.
+pub fn draw_volume(r: &mut Rng, limited: bool) -> Option<Volume> {
+    match r.below(30_000) {
+        0..=9 => Some(Volume::Lines17),
+        10..=19 => Some(Volume::Rep20),
+        20 if limited => Some(Volume::Lines20),
+        21 if limited => Some(Volume::Chars21),
+        _ => None,
+    }
+}
+
+/// The volume string as `k` feed_str events (k = 1: one call).
+pub fn volume_events(s: &str, k: usize, r: &mut Rng) -> Vec<Event> {
+    let chars: Vec<char> = s.chars().collect();
+    let mut cuts: Vec<usize> = (0..k.saturating_sub(1)).map(|_| 1 + r.usize_below(chars.len().max(2) - 1)).collect();
+    cuts.sort();
+    cuts.dedup();
+    cuts.push(chars.len());
+    let mut out = vec![];
+    let mut start = 0;
+    for c in cuts {
+        out.push(Event::FeedStr { s: chars[start..c].iter().collect(), drain: crate::trace::Drain::All });
+        start = c;
+    }
+    out
 }
